@@ -31,6 +31,8 @@ def universe(w):
              w.ion(E("C"), 4), w.ion(E("C"), -4)]
     atoms += [w.ion(w.isotope("Fe", 56), 2), w.ion(w.isotope("Fe", 56), 3), w.ion(w.isotope("Fe", 54), 2),
               w.ion(w.get(w.table, "D"), 1), w.ion(w.isotope("H", 1), 1), w.ion(w.isotope("C", 13), 4)]
+    # mass numbers of different digit counts (ordered by number, not as text), charges of two digits
+    atoms += [w.isotope("Mo", 98), w.isotope("Mo", 100), w.isotope("Be", 9), w.isotope("Be", 10)]
     return atoms
 
 
